@@ -8,7 +8,7 @@ from .. import b2check, core, gen
 
 
 def jobs(rng, thorough):
-    n = 5000 if thorough else 300
+    n = 20000 if thorough else 300
     out = []
     for _ in range(n):
         out.append((gen.conn_traffic(rng), rng.randrange(10 ** 9), rng.choice([0, 0, 3])))
